@@ -7,6 +7,15 @@ from krrood.entity_query_language.quantify_entity import an, the
 from krrood.entity_query_language.result_quantification_constraint import Exactly, AtLeast, AtMost, Range
 from krrood.entity_query_language import failures as F
 
+from dataclasses import dataclass
+from krrood.entity_query_language.predicate import Symbol
+
+
+@dataclass(eq=False)
+class Item(Symbol):      # defined before the first evaluation builds the symbol graph's class diagram
+    k: int
+
+
 a = args()
 B, N = (4, 5) if a.tier == "quick" else (7, 9)
 rep = Report("C09", f"constraints with bounds 0..{B} (plus negative/inconsistent constructor arguments) x n=0..{N} solutions, the() for n=0..{N}; exhaustive", a.out)
@@ -67,17 +76,6 @@ for dom, want in (([0], 0), ([""], ""), ([[]], [])):
     if not (st == "ok" and r == want):
         rep.fail("the::falsy-solution", f"the() over the one-element domain {dom!r}: {st} {r!r}", {"domain": repr(dom)})
 # pattern-matching descriptions carry the constraint too
-from dataclasses import dataclass
-
-
-from krrood.entity_query_language.predicate import Symbol
-
-
-@dataclass(eq=False)
-class Item(Symbol):
-    k: int
-
-
 from krrood.entity_query_language.match import entity_matching
 items = [Item(1), Item(1), Item(2)]
 for name, c, lower, upper in cons[:1 + 3 * 3]:
